@@ -187,8 +187,8 @@ class Sample(object):
         # This will be zero when activity is at target
         f = lambda t: sum(Ia*exp(-La*(t-To)) for Ia, La in data) - target
         df = lambda t: sum(La*Ia*(To-1)*exp(-La*(t-To)) for Ia, La in data)
-        # Return target time, or 0 if target time is negative
-        if f(0) < target:
+        # Return target time, or 0 if the activity is already at or below target
+        if f(0) <= 0:
             return 0
         # Need an initial guess near the answer otherwise find_root gets confused.
         # Small but significant activation with an extremely long half-life will
